@@ -2,3 +2,4 @@ pub mod common;
 pub mod engine;
 pub mod f2;
 pub mod props;
+pub mod rogue_noise;
